@@ -231,6 +231,11 @@ def arr_setitem(interp, st, arr, idx, v):
         idx = tuple(st.deref(i) if isinstance(i, Ref) else i for i in idx)
     if isinstance(idx, Arr) and idx.sort == "bool":
         mask = idx
+        if isinstance(v, MaskedSel):
+            if v.mask is not mask:
+                raise Unsupported("masked store of a selection made with a different mask")
+            src = v.arr
+            return arr.updated(lambda ix: mask.get(ix[:mask.ndim]), lambda ix: src.get(ix))
         if isinstance(v, Arr):
             raise Unsupported("masked store of an array")
         return arr.updated(lambda ix: mask.get(ix[:mask.ndim]), lambda ix: v)
@@ -309,9 +314,13 @@ CUR_INTERP = [None]
 def ew(st, fn, *ops, sort=None):
     """Elementwise application with numpy broadcasting."""
     ops = [st.deref(o) for o in ops]
-    for o in ops:
-        if isinstance(o, MaskedSel):
-            raise Unsupported("arithmetic on a masked selection")
+    ms = [o for o in ops if isinstance(o, MaskedSel)]
+    if ms:
+        # x[mask] op y: computed on the uncompacted arrays, the result stays a selection by the same mask
+        if any(m.mask is not ms[0].mask for m in ms) or any(isinstance(o, Arr) for o in ops):
+            raise Unsupported("arithmetic mixing a masked selection with other arrays")
+        inner = st.deref(ew(st, fn, *[o.arr if isinstance(o, MaskedSel) else o for o in ops], sort=sort))
+        return MaskedSel(inner, ms[0].mask)
     arrs = [o for o in ops if isinstance(o, Arr)]
     shape = _bshape(st, CUR_INTERP[0], [a.shape for a in arrs])
     nd = len(shape)
@@ -381,6 +390,7 @@ REG["math.pi"] = T.PI
 REG["numpy.inf"] = T.INF
 REG["math.inf"] = T.INF
 REG["numpy.newaxis"] = None
+REG["numpy.nan"] = "nan"
 for _t in ("ndarray", "float64", "int64", "float32", "int32", "bool_", "datetime64", "timedelta64", "complex64", "complex128"):
     if "numpy." + _t not in REG:
         REG["numpy." + _t] = TypeTag("numpy." + _t)
@@ -476,6 +486,11 @@ def np_ones(interp, st, args, kwargs):
 @reg("numpy.full")
 def np_full(interp, st, args, kwargs):
     return _const_arr(st, _shape_arg(st, args[0]), st.deref(args[1]))
+
+
+@reg("numpy.full_like")
+def np_full_like(interp, st, args, kwargs):
+    return _const_arr(st, _val(st, args[0]).shape, st.deref(args[1]))
 
 
 @reg("numpy.empty_like")
@@ -672,8 +687,13 @@ def np_diff(interp, st, args, kwargs):
     for x in (pre, app):
         if isinstance(x, Arr) and x.ndim != 0:
             raise Unsupported("np.diff prepend/append array")
-    pre = pre.get(()) if isinstance(pre, Arr) else pre
-    app = app.get(()) if isinstance(app, Arr) else app
+        if isinstance(x, Obj) and not (x.cls == "DataArray" and not x.fields["dims"]):
+            raise Unsupported("np.diff prepend/append object")
+    def _scalar(x):
+        if isinstance(x, Obj) and x.cls == "DataArray" and not x.fields["dims"]:
+            return x.fields["arr"].get(())
+        return x.get(()) if isinstance(x, Arr) else x
+    pre, app = _scalar(pre), _scalar(app)
     off = 1 if pre is not None else 0
     total = T.add(n, (1 if pre is not None else 0) + (1 if app is not None else 0))
 
